@@ -182,10 +182,11 @@ def run(ctx):
         t3 = t2 + rng.choice([0, 0, 1])
         key = rng.choice(["last", "last", "first"])
         rjobs.append({"id": 200000 + k, "files": {"f": V1, "f2": V2}, "groups": {"g0": ['~id: a~ $[*][ yes() ]'], "gr": ['~id: a~ $[*][ yes() ]', '~id: b~ $[1*][ @n = count() ]']},
-                      "runs": [{"method": "collect_paths", "pathsname": "g0", "filename": "f", "new_instance": True, "clock": MENU[t1]},
-                               {"method": rng.choice(["collect_paths", "collect_by_line"]), "pathsname": "g0", "filename": "f2", "new_instance": rng.random() < 0.5, "clock": MENU[t2]},
-                               {"method": rng.choice(["collect_paths", "collect_by_line"]), "pathsname": "gr", "filename": f"$g0.results.2026:{key}.a", "new_instance": rng.random() < 0.5,
-                                "clock": MENU[t3]}],
+                      # three CsvPaths instances A, B, C: the referenced group's runs and the referring run may each be on an instance used before
+                      "runs": [{"method": "collect_paths", "pathsname": "g0", "filename": "f", "inst": "A", "new_instance": True, "clock": MENU[t1]},
+                               {"method": rng.choice(["collect_paths", "collect_by_line"]), "pathsname": "g0", "filename": "f2", "inst": rng.choice(["A", "B"]), "new_instance": False, "clock": MENU[t2]},
+                               {"method": rng.choice(["collect_paths", "collect_by_line"]), "pathsname": "gr", "filename": f"$g0.results.2026:{key}.a", "inst": rng.choice(["A", "B", "C"]),
+                                "new_instance": False, "clock": MENU[t3]}],
                       "set_clock": set_clock, "paths_policy": ["raise", "collect"], "policy": ["collect", "print"], "key": key})
     rres = pmap(ctx, groups.run_history, rjobs, chunksize=2)
     rfail = []
@@ -194,7 +195,7 @@ def run(ctx):
         o = r["runs"][2] if len(r["runs"]) == 3 else None
         got = None if (o is None or o["exc"] or not o.get("members")) else o["members"][0]["lines"]
         if r["setup_exc"] or got != want:
-            rfail.append({"runs": [{k2: x[k2] for k2 in ("method", "pathsname", "filename", "new_instance", "clock")} for x in j["runs"]],
+            rfail.append({"runs": [{k2: x[k2] for k2 in ("method", "pathsname", "filename", "inst", "clock")} for x in j["runs"]],
                           "expected_lines": want, "read": got, "exc": r["setup_exc"] or (o and o["exc"])})
     if rfail:
         ctx.violation("resolve-in-run", {"what": "a run whose file name is a ':last' / ':first' results reference to another group did not read that group's latest / earliest run "
@@ -232,7 +233,7 @@ def run(ctx):
         i = min(other, key=lambda k: len(jobs[k]["runs"]))
         ctx.violation("rundirs", {"what": "a run did not get a fresh directory under its own name, or changed an earlier run's files, or ':last'/':first' did not resolve to the latest/earliest run",
                                   "case": case(i), "histories": len(other)})
-    elif not spec_bad and (clean_bad or not fmt_ok or bad["c10_resolve_agree"]):
+    elif not spec_bad and not rfail and (clean_bad or not fmt_ok or bad["c10_resolve_agree"]):
         pool = clean_bad or bad["c10_resolve_agree"]
         i = min(pool, key=lambda k: len(jobs[k]["runs"])) if pool else 0
         ctx.violation("correspondence", {"what": "correspondence Mgr/RunDirs.v vs csvpaths.py/result_serializer.py no longer checks (Harness/C10Cmp.c10_agree / c10_resolve_agree" +
